@@ -19,6 +19,12 @@ Definition eqe (e1 e2 : edge) : bool := (fst e1 =? fst e2)%N && (snd e1 =? snd e
 Definition memN (x : N) (l : list N) : bool := existsb (N.eqb x) l.
 Definition memE (e : edge) (l : list edge) : bool := existsb (eqe e) l.
 
+Fixpoint nodupE (l : list edge) : bool :=
+  match l with [] => true | x :: r => negb (memE x r) && nodupE r end.
+(* finite maps given as association lists (first entry wins), with a default *)
+Definition map_of (l : list (node * N)) (d : N) (v : node) : N :=
+  match find (fun p => (fst p =? v)%N) l with Some p => snd p | None => d end.
+
 Fixpoint pairs (w : list node) : list edge :=
   match w with
   | a :: ((b :: _) as r) => (a, b) :: pairs r
